@@ -546,6 +546,19 @@ def _short(path):
     return segs[-1]
 
 
+def item_signatures(doc):
+    """path -> 'parent|kind|types': what identifies an item apart from its own name (used to recognise renames)."""
+    out = {}
+    for f in doc.get("functions", []):
+        if f.get("kind") == "Closure":
+            continue
+        tys = [l.get("ty", "?") for l in f.get("locals", [])[: f.get("argc", 0) + 1]]
+        out[f["path"]] = "%s|%s|%s" % (f.get("parent"), f.get("kind"), " , ".join(tys))
+    for c in doc.get("consts", []):
+        out[c["path"]] = "%s|const|%s" % (c["path"].rsplit("::", 1)[0], c.get("ty"))
+    return out
+
+
 def _normalise_moves(doc):
     """Items that were merely MOVED (into another module, a new file, an impl or a private trait) get their baseline path
     back, so that rules and reviewed table lines keyed by path are indifferent to where an item lives.  An item counts as
@@ -578,8 +591,26 @@ def _normalise_moves(doc):
         others_missing = [x for x in missing if _short(x) == _short(m)]
         if len(c) == 1 and len(others_missing) == 1:
             mapping[c[0]] = m
+    # RENAMED items: the baseline item is gone and exactly one new item with the same parent, kind and signature (argument
+    # and return types) has appeared - and no other vanished item has that signature.  Renaming a function is routine; the
+    # rules keep addressing it by the name it had when they were written.
+    bsigs = base.get("__sigs__", {}).get(crate, {})
+    if bsigs:
+        csigs = item_signatures(doc)
+        rest_missing = [m for m in missing if m not in mapping.values() and m in bsigs]
+        rest_new = [n for n in new if n not in mapping and n in csigs]
+        by_sig_new = {}
+        for n in rest_new:
+            by_sig_new.setdefault(csigs[n], []).append(n)
+        by_sig_missing = {}
+        for m in rest_missing:
+            by_sig_missing.setdefault(bsigs[m], []).append(m)
+        for sg, ms in by_sig_missing.items():
+            ns = by_sig_new.get(sg, [])
+            if len(ms) == 1 and len(ns) == 1:
+                mapping[ns[0]] = ms[0]
     if not mapping:
-        return doc, {}
+        return _normalise_fields(doc, base, crate), {}
     keys = sorted(mapping, key=len, reverse=True)
     pat = re.compile("|".join(re.escape(k) for k in keys))
 
@@ -596,7 +627,90 @@ def _normalise_moves(doc):
         if isinstance(x, str):
             return fix(x)
         return x
-    return walk(doc), mapping
+    return _normalise_fields(walk(doc), base, crate), mapping
+
+
+def adt_shapes(doc):
+    """ADT path -> [[variant name, [[field name, field type], ..]], ..] (own path written as Self)."""
+    out = {}
+    for a in doc.get("adts", []):
+        me = a["path"]
+        out[me] = [[v.get("name"), [[f.get("name"), (f.get("ty") or "").replace(me, "Self")] for f in v.get("fields", [])]]
+                   for v in a.get("variants", [])]
+    return out
+
+
+STD_VARIANTS = {"Some", "None", "Ok", "Err", "Continue", "Break", "Less", "Equal", "Greater", "Borrowed", "Owned"}
+
+
+def _normalise_fields(doc, base, crate):
+    """RENAMED fields and enum variants get their baseline names back.  A field counts as renamed when its ADT still has
+    the same variants with the same number of fields of the same types in the same order and only names differ; a variant
+    when it keeps its position and fields.  Names are rewritten in place projections ({"f","of"} / {"dc"}), aggregate
+    variant names and the ADT table."""
+    bshapes = base.get("__adts__", {}).get(crate, {})
+    if not bshapes:
+        return doc
+    cshapes = adt_shapes(doc)
+    kinds = {a["path"]: a.get("kind") for a in doc.get("adts", [])}
+    fmap = {}     # (owner string, new field name) -> old name
+    vmap = {}     # (adt path, new variant name) -> old name
+    all_variant_names = {}
+    for pth, vs in cshapes.items():
+        for v in vs:
+            all_variant_names.setdefault(v[0], set()).add(pth)
+    for pth, bvs in bshapes.items():
+        cvs = cshapes.get(pth)
+        if cvs is None or len(cvs) != len(bvs):
+            continue
+        is_enum = kinds.get(pth) == "Enum"
+        for (bn, bfs), (cn, cfs) in zip(bvs, cvs):
+            if [t for _, t in bfs] != [t for _, t in cfs]:
+                continue
+            if bn != cn:
+                # a variant rename: only when unambiguous across the crate and not a std spelling
+                if cn in STD_VARIANTS or all_variant_names.get(cn, set()) != {pth} or any(v[0] == bn for v in cvs):
+                    continue
+                vmap[(pth, cn)] = bn
+            owner_new = "%s::%s" % (pth, cn) if is_enum else pth
+            cur_names = [n for n, _ in cfs]
+            for (bf, _), (cf, _) in zip(bfs, cfs):
+                if bf != cf and bf not in cur_names:
+                    fmap[(owner_new, cf)] = bf
+    if not fmap and not vmap:
+        return doc
+    dcmap = {new: old for (_, new), old in vmap.items()}
+    ofmap = {"%s::%s" % (p_, new): "%s::%s" % (p_, old) for (p_, new), old in vmap.items()}
+
+    def walk(x):
+        if isinstance(x, dict):
+            if "f" in x and "of" in x and len(x) == 2:
+                f_, of_ = x["f"], x["of"]
+                f_ = fmap.get((of_, f_), f_)
+                return {"f": f_, "of": ofmap.get(of_, of_)}
+            if "dc" in x and len(x) == 1:
+                return {"dc": dcmap.get(x["dc"], x["dc"])}
+            out = {k: walk(v) for k, v in x.items()}
+            if vmap and isinstance(out.get("variant"), str) and (out.get("adt"), out["variant"]) in vmap:
+                out["variant"] = vmap[(out["adt"], out["variant"])]
+            return out
+        if isinstance(x, list):
+            return [walk(v) for v in x]
+        return x
+    doc = dict(doc)
+    doc["functions"] = walk(doc.get("functions", []))
+    adts = []
+    for a in doc.get("adts", []):
+        a = json.loads(json.dumps(a))
+        is_enum = a.get("kind") == "Enum"
+        for v in a.get("variants", []):
+            owner_new = "%s::%s" % (a["path"], v.get("name")) if is_enum else a["path"]
+            for f in v.get("fields", []):
+                f["name"] = fmap.get((owner_new, f.get("name")), f.get("name"))
+            v["name"] = vmap.get((a["path"], v.get("name")), v.get("name"))
+        adts.append(a)
+    doc["adts"] = adts
+    return doc
 
 
 def load_program(main_path, bins_path=None):
